@@ -133,3 +133,15 @@ func AliasTable(s *Source) [][2]string {
 	}
 	return out
 }
+
+func init() {
+	// deep nesting and very long tokens (C01: recursion depth, goroutine nesting, bufio boundaries)
+	rep := strings.Repeat
+	Curated = append(Curated,
+		rep("(", 300), rep("(", 200)+"a"+rep(")", 200), rep("$(", 150), rep("$(", 120)+"a"+rep(")", 120), rep("{ ", 300), rep("{ ", 200)+"a;"+rep(" }", 200),
+		rep("if ", 200), rep("if a; then ", 150)+"b"+rep("; fi", 150), rep("\"$(", 80), rep("\"$(", 60)+"a"+rep(")\"", 60), rep("`", 101), rep("${x:-", 200), rep("${x:-", 150)+"y"+rep("}", 150),
+		rep("a | ", 2000)+"b", rep("a && ", 2000)+"b", rep("! ", 50)+"a", rep("<<E ", 100)+"\n"+rep("E\n", 100), "echo "+rep("w", 70000), "echo "+rep("é", 5000), rep("a\n", 3),
+		"case x in "+rep("a) b;; ", 500)+"esac", rep("f() ", 100)+"{ a; }", rep("((", 100), "$(("+rep("(", 200)+"1"+rep(")", 200)+"))", rep("x=1 ", 1000)+"cmd",
+		rep("\\\n", 500)+"a", "a "+rep("# c\n", 3), rep("'", 1001), rep("\"", 1001),
+	)
+}
